@@ -137,6 +137,11 @@ theorem findInModule_sound (env : Env) (name : String) :
         obtain ⟨hstar, htd, hsc⟩ := ih im s1 s2 r hf
         exact ⟨IncludesStar.head (includeTargets_sub env m im him) hstar, htd, hsc⟩
 
+theorem findInModule_sound' (env : Env) (name : String) (fuel : Nat) (m : Mod) (seen : List Nat) (r : TdRef)
+    (h : (findInModule env name fuel m seen).1 = .found r) :
+    IncludesStar env.reg m r.root ∧ r.td ∈ declared r.root.stmt name ∧ r.scope = [r.root.stmt] :=
+  findInModule_sound env name fuel m seen (findInModule env name fuel m seen).2 r (by rw [← h])
+
 theorem findLocalModules_sound (env : Env) (root : Mod) (name : String) (r : TdRef)
     (h : findLocalModules env root name = .found r) :
     InUnit env.reg root r.root ∧ r.td ∈ declared r.root.stmt name ∧ r.scope = [r.root.stmt] := by
@@ -222,5 +227,40 @@ theorem builtin_shape {n : String} {y : YType} (h : builtin? n = some y) :
   subst hy
   subst hn
   exact ⟨rfl, rfl, rfl, rfl, rfl, rfl, rfl, rfl, rfl, rfl, rfl, rfl⟩
+
+/-! ## Errors of the overlays -/
+
+theorem flatMap_errs_nil {members : List Res} (h : members.flatMap (·.errs) = []) :
+    ∀ r ∈ members, r.errs = [] := by
+  intro r hr
+  rw [List.flatMap_eq_nil_iff] at h
+  exact h r hr
+
+/-- An error-free `Type.resolve` got as far as its member types, and they are error-free. -/
+theorem overlayType_errs_nil {env : Env} {root : Mod} {t : Stmt} {src : Source} {tdY : YType}
+    {members : List Res} (h : (overlayType env root t src tdY members).errs = []) :
+    ∀ r ∈ members, r.errs = [] := by
+  unfold overlayType at h
+  simp only at h
+  split at h
+  · simp at h
+  · split at h
+    · simp at h
+    · simp only [stepMembers, List.append_eq_nil_iff] at h
+      exact flatMap_errs_nil h.2
+
+/-- The keyword of a statement picked by `one?` / `all`. -/
+theorem kw_of_one {s : Stmt} {k : String} {c : Stmt} (h : s.one? k = some c) : c.kw = k := by
+  unfold Stmt.one? at h
+  have := List.find?_some h
+  simpa using this
+
+theorem kw_of_all {s : Stmt} {k : String} {c : Stmt} (h : c ∈ s.all k) : c.kw = k := by
+  unfold Stmt.all at h
+  have := (List.mem_filter.mp h).2
+  simpa using this
+
+theorem type_not_scope {c : Stmt} (h : c.kw = "type") : scopeKinds.contains c.kw = false := by
+  rw [h]; decide
 
 end Goyang.Lemmas.Types
